@@ -280,8 +280,8 @@ theorem Inv.oScanT {s : State} (hI : Inv s) {a : Actor} {f cur : Nat} {l0 seen :
           exact ⟨c, by simp [upd, hmc, h1], by simp [updA, hca, h2]⟩
   case placed => ul_auto
   case freshHolder => ul_auto
-  case scanL0 => ul_auto
-  case unlockL0 => ul_auto
+  case scanL0 => unfold ScanL0 at *; ul_auto
+  case unlockL0 => unfold ScanL0 UnlockL0 at *; ul_auto
   case oScanOk => ul_auto
   case oNoneOk => ul_auto
   case aUnlockOk =>
@@ -526,8 +526,8 @@ theorem Inv.oScanFN {s : State} (hI : Inv s) {a : Actor} {f cur : Nat} {l0 seen 
           exact ⟨c, by simp [upd, hmc, h1], by simp [updA, hca, h2]⟩
   case placed => ul_auto
   case freshHolder => ul_auto
-  case scanL0 => ul_auto
-  case unlockL0 => ul_auto
+  case scanL0 => unfold ScanL0 at *; ul_auto
+  case unlockL0 => unfold ScanL0 UnlockL0 at *; ul_auto
   case oScanOk => ul_auto
   case oNoneOk =>
     intro b g l0' seen' hb
@@ -788,8 +788,8 @@ theorem Inv.oScanFS {s : State} (hI : Inv s) {a : Actor} {f cur : Nat} {l0 seen 
           exact ⟨c, by simp [upd, hmc, h1], by simp [updA, hca, h2]⟩
   case placed => ul_auto
   case freshHolder => ul_auto
-  case scanL0 => ul_auto
-  case unlockL0 => ul_auto
+  case scanL0 => unfold ScanL0 at *; ul_auto
+  case unlockL0 => unfold ScanL0 UnlockL0 at *; ul_auto
   case oScanOk => ul_auto
   case oNoneOk => ul_auto
   case aUnlockOk =>
